@@ -138,6 +138,13 @@ def run(ctx, spec):
             syn = gen.random_syntenies(rng, list(lm), 4, ordered=True, consistent_p=0.95)
         # one synteny assignment serves both models: ordered lists for the ordered solvers, read as sets by the unordered ones
         case = {"kind": "agree", "G": Gn, "S": Sn, "leafmap": lm, "costs": cost, "syn": syn, "single_family": single}
+        if k % 6 == 2:
+            # deep labelled inputs: sparse families carried by 1-3 leaves anywhere, few species, 5-9 object leaves - chains
+            # of several internal nodes that inherit, gain and lose families (the unordered optimum often equals the
+            # ordered one there, so an over-estimate of either shows in the inequality)
+            d = gen.deep_super_case(rng, ordered=True, min_obj=5, max_obj=8, max_fam=4, max_sp=5)
+            case = {"kind": "agree", "G": d["G"], "S": d["S"], "leafmap": d["leafmap"], "costs": gen.tame(d["costs"], len(d["leafmap"])), "syn": d["syn"], "single_family": False}
+            ctx.count("deep_cases")
         check_case(ctx, case)
         if ctx.too_many():
             return
